@@ -6,7 +6,7 @@ use ohmc_core::explore::catch;
 use ohmc_core::plain::*;
 use open_hypergraphs::category::*;
 use open_hypergraphs::finite_function::FiniteFunction;
-use open_hypergraphs::indexed_coproduct::IndexedCoproduct;
+use open_hypergraphs::indexed_coproduct::{HasLen, IndexedCoproduct};
 use open_hypergraphs::operations::Operations;
 use open_hypergraphs::semifinite::SemifiniteFunction;
 use open_hypergraphs::strict;
@@ -162,6 +162,8 @@ fn pan<T>(r: Result<T, String>) -> Res<T> {
 
 include!("be_c07.rs");
 include!("be_c06.rs");
+include!("be_c08.rs");
+include!("be_c05.rs");
 
 pub struct B;
 
